@@ -125,6 +125,10 @@ func getStaticBackendHostHeader(backend *value.Backend) string {
 }
 
 func getBackendProperty(backend *value.Backend, key string) ast.Expression {
+	// The backend does not have the declaration when it is a director
+	if backend == nil || backend.Value == nil {
+		return nil
+	}
 	for _, v := range backend.Value.Properties {
 		if v.Key.Value != key {
 			continue
